@@ -41,6 +41,36 @@ FIXED = [
 ]
 
 OPEN = [
+ {"id": "KF-C01-abutting-seam", "property": "C01", "status": "open", "design_item": "D8",
+  "match": {"kind": "seam_point", "abut": True, "target": "boundary"},
+  "what": "union of operands that share an edge exactly (abutting): the shared edge is classified as boundary (on both operand boundaries) although it lies in the interior of the union; boundary samplers of the union return points on this interior seam (about a quarter of the samples for two equal rectangles)",
+  "witness": "Parallelogram([0,0],[1,0],[0,1]) + Parallelogram([1,0],[2,0],[1,1]): boundary.sample_random_uniform returns points with x = 1, 0 < y < 1",
+  "why_not_fixed": "deciding that a point on both operand boundaries is interior needs a neighbourhood test; UnionBoundaryDomain._contains deliberately accepts 'on both boundaries' (needed for corners), no small local repair"},
+ {"id": "KF-C11-abutting-seam", "property": "C11", "status": "open", "design_item": "D8",
+  "match": {"kind": "not_uniform", "abut": True, "target": "boundary"},
+  "what": "same mechanism as KF-C01-abutting-seam seen by the distribution monitor: part of the boundary samples of a union of abutting operands lies on the interior seam, so the law on the true boundary is not the uniform one",
+  "witness": "boundary of a rotated union of two rectangles sharing an edge, density sampling: two-sample chi-square 2538 on 36 dof (C11 seed 2)",
+  "why_not_fixed": "see KF-C01-abutting-seam"},
+ {"id": "KF-C11-union-grid-by-n", "property": "C11", "status": "open", "design_item": "D49",
+  "match": {"kind": "grid_not_even", "union_weights_inexact": True},
+  "what": "UnionDomain.sample_grid(n) with overlapping operands (or operands with estimated volumes) splits n by the operands' volume() and fills the second operand with the remaining points: the two parts of the union get different point densities (not a discretisation effect)",
+  "witness": "union of two overlapping intervals, sample_grid(n=900): the first quarter of the bounding box holds 149 points, its share of the measure is 0.2518 (expected 227 +- 69) (C11 seed 2)",
+  "why_not_fixed": "needs the measure of the overlap (unknown to the library) to split n correctly"},
+ {"id": "KF-C11-polygon-small-n", "property": "C11", "status": "open", "design_item": "D22",
+  "match": {"kind": "not_uniform", "target": "interior", "has_polygon": True, "mode": "small"},
+  "what": "ShapelyPolygon.sample_random_uniform(n) gives every triangle of the triangulation int(area share * n) points and puts the missing points into the largest inner triangle: for small n (1, 2, 10) the law is far from uniform (for n=1 every point lies in the largest triangle); the bias vanishes like (#triangles)/n",
+  "witness": "polygon with 5-8 vertices, 4000 calls of sample_random_uniform(n=2): two-sample chi-square 7914 on 47 dof against the twin rejection sampler (C11 seed 1)",
+  "why_not_fixed": "a uniform scheme has to choose the triangles at random in proportion to their areas (multinomial), i.e. a rewrite of the method"},
+ {"id": "KF-C11-union-overlap-by-n", "property": "C11", "status": "open", "design_item": "D9",
+  "match": {"kind": "not_uniform", "target": "interior", "union_weights_inexact": True, "mode": ["big", "small"]},
+  "what": "UnionDomain._sample_random_with_n with overlapping operands mixes the operands with the weights |A|/(|A|+|B|) computed from the operands' volume() - inexact when the operands overlap or when an operand is itself a Boolean combination whose volume() is a documented estimate; with overlapping operands it is biased towards the first operand: a point of B that falls into A is replaced by a point of A, while A is already chosen with probability |A|/(|A|+|B|) (measured shares 0.373/0.377/0.250 instead of 1/3 each); sampling by density is uniform",
+  "witness": "Circle + overlapping Parallelogram, sample_random_uniform(n=40000): two-sample chi-square against the twin rejection sampler p < 1e-20 (C11 seed 0, e.g. Rot[(C+G)])",
+  "why_not_fixed": "the correct mixture weight needs the measure of the overlap, which the library does not know; an unbiased scheme needs a rejection loop (a redesign of the method)"},
+ {"id": "KF-C11-boolean-boundary-by-n", "property": "C11", "status": "open", "design_item": "D31",
+  "match": {"kind": "not_uniform", "target": "boundary", "has_bool": True, "mode": ["big", "small"]},
+  "what": "random sampling by n on the boundary of a union / cut / intersection (_random_points_boundary, _random_boundary_points_if_n_eq_1) alternates a batch on the boundary of A and a batch on the boundary of B and truncates to n: the part of A is over-represented whenever proposals are rejected (for every n), and for n=1 the operand is chosen by the alternation, not in proportion to the boundary lengths; sampling by density is uniform",
+  "witness": "boundary of (Parallelogram + Circle), sample_random_uniform(n=40000): two-sample chi-square 18602 on 37 dof against the twin boundary reference (C11 seed 0)",
+  "why_not_fixed": "an unbiased scheme needs proposals in proportion to the operand boundary measures with randomised rounding and a random subset, i.e. a rewrite of both helper functions"},
  {"id": "KF-C16-D34-deeponet-diagonal-gcd", "property": "C16", "status": "open", "design_item": "D34",
   "match": {"kind": "pairs_never_presented", "dataset": "DeepONetDataset", "gcd_gt_1": True, "matches_diagonal_model": True},
   "what": "DeepONetDataset (shared trunk) walks the diagonal of (branch batch, trunk batch): when gcd(number of branch batches, number of trunk batches) > 1 one pass presents only lcm of the Lb*Lt batch combinations, so some function-location pairs are never presented",
